@@ -115,7 +115,9 @@ fn single(s: &mut Src, units: i32, with_marks: bool) {
         if is_mark {
             // place an uncoalescable boundary at the first unit of a run (as Map64 does for chunks)
             let u = s.any_in(0, 5) as i32;
-            s.assume(u < units && (u == 0 || l.get_right(l.get_left(u)) == u));
+            s.assume(u < units);
+            // run start according to the live-run map (free runs are fully coalesced up to marks)
+            s.assume(u == 0 || g.own[(u - 1) as usize] != g.own[u as usize] || g.mark[u as usize]);
             l.set_uncoalescable(u);
             g.mark[u as usize] = true;
         } else if is_alloc {
@@ -161,8 +163,8 @@ fn single(s: &mut Src, units: i32, with_marks: bool) {
         g.own = [0; MAXU];
         let (ok, longest) = walk(&l, &g);
         chk!(s, "after freeing everything all units are free, in runs delimited exactly by the uncoalescable boundaries", ok && longest == g.longest_free());
-        cov!(s, "a boundary was placed and a run next to it freed", g.mark[1] || g.mark[2] || g.mark[3] || g.mark[4]);
     }
+    cov!(s, "a boundary was placed inside the list (marks variant)", !with_marks || g.mark[1] || g.mark[2] || g.mark[3] || g.mark[4]);
     cov!(s, "three runs were allocated", g.next_id >= 4);
     cov!(s, "a run was freed and its units reallocated", g.next_id >= 3 && starts[1] < 0);
 }
